@@ -1,11 +1,156 @@
 import PyresampleModel.Model.Core
 
 /-
-  C12 — model (stub: not built yet).
+  C12 — equality, hashing, cache keys.
+
+  * how `AreaDefinition.update_hash` serialises (CRS WKT bytes ++ shape as int64 ++ extent as float64)
+  * numpy's dtype inference for the pre-fix code (`np.array(extent)` without a dtype)
+  * the memoised `hash()` state machine of coordinate definitions under `append` / slicing / copy
+  * `np.allclose` as used by `__eq__`
+
+  The digest (SHA-1) is an uninterpreted injective function: digests are compared through their inputs.
 -/
+
 namespace PyresampleModel.C12
 
+/-- a number together with the way it was spelled -/
+inductive Num where
+  | int (i : Int)          -- Python int / numpy integer
+  | f64 (q : Rat)          -- Python float / np.float64
+  | f32 (q : Rat)          -- np.float32 scalar or element of a float32 array
+deriving Repr, DecidableEq
+
+def Num.val : Num → Rat
+  | .int i => (i : Rat)
+  | .f64 q => q
+  | .f32 q => q
+
+/-- one serialised array element: dtype tag + value (8- or 4-byte item, injective in the value) -/
+inductive Item where
+  | i64 (i : Int)
+  | f64 (q : Rat)
+  | f32 (q : Rat)
+deriving Repr, DecidableEq
+
+/-- numpy's result dtype for `np.array(list_of_scalars)`: all ints → int64; any Python float / float64 →
+float64; only float32 (and ints, for a float32 *array* input) → float32 -/
+def inferItems (xs : List Num) : List Item :=
+  if xs.all (fun x => match x with | .int _ => true | _ => false) then
+    xs.map (fun x => match x with | .int i => Item.i64 i | _ => Item.i64 0)
+  else if xs.any (fun x => match x with | .f64 _ => true | _ => false) then
+    xs.map (fun x => Item.f64 x.val)
+  else xs.map (fun x => Item.f32 x.val)
+
+/-- `np.array(extent, dtype=np.float64)` -/
+def f64Items (xs : List Num) : List Item := xs.map (fun x => Item.f64 x.val)
+
+structure AreaSpec where
+  wkt    : List Nat          -- bytes of `crs_wkt`
+  height : Nat
+  width  : Nat
+  extent : List Num
+deriving Repr, DecidableEq
+
+/-- bytes fed to the digest, as a list of chunks: WKT bytes, then the fixed-size suffix -/
+structure Ser where
+  wkt   : List Nat
+  items : List Item
+deriving Repr, DecidableEq
+
+/-- `AreaDefinition.update_hash` (after the `fix:` commit) -/
+def serializeArea (a : AreaSpec) : Ser :=
+  { wkt := a.wkt, items := [Item.i64 a.height, Item.i64 a.width] ++ f64Items a.extent }
+
+/-- the same before the fix -/
+def serializeAreaOld (a : AreaSpec) : Ser :=
+  { wkt := a.wkt, items := [Item.i64 a.height, Item.i64 a.width] ++ inferItems a.extent }
+
+def absQ (q : Rat) : Rat := if 0 ≤ q then q else -q
+
+/-- `np.allclose(a, b, rtol, atol)` on equal-length lists: all `|a - b| ≤ atol + rtol * |b|` -/
+def allclose (rtol atol : Rat) (a b : List Rat) : Bool :=
+  a.length == b.length && (a.zip b).all (fun p => decide (absQ (p.1 - p.2) ≤ atol + rtol * absQ p.2))
+
+/-- `AreaDefinition.__eq__` (CRS equality supplied as a Boolean): closeness is tested both ways -/
+def areaEq (crsEq : Bool) (a b : AreaSpec) : Bool :=
+  allclose (1 / 100000) (1 / 100000000) (a.extent.map Num.val) (b.extent.map Num.val) &&
+  allclose (1 / 100000) (1 / 100000000) (b.extent.map Num.val) (a.extent.map Num.val) && crsEq &&
+    (a.height == b.height && a.width == b.width)
+
+/-- the same before the `fix:` commit (one direction only) -/
+def areaEqOld (crsEq : Bool) (a b : AreaSpec) : Bool :=
+  allclose (1 / 100000) (1 / 100000000) (a.extent.map Num.val) (b.extent.map Num.val) && crsEq &&
+    (a.height == b.height && a.width == b.width)
+
+/-! ### memoised hash of a coordinate definition -/
+
+/-- coordinates are a list of rows; the digest input is the row list itself -/
+structure Geo where
+  rows : List (List Rat)
+  memo : Option (List (List Rat))      -- memoised digest input, `self.hash`
+deriving Repr, DecidableEq
+
+inductive Op where
+  | hash                           -- `hash(obj)`
+  | append (other : List (List Rat))   -- `obj.append(other)` (in place)
+  | slice (s : PySlice)            -- `obj = obj[s, :]` (a new object)
+  | copy                           -- `obj = obj.copy()`
+deriving Repr
+
+def Geo.hashVal (g : Geo) : List (List Rat) := g.memo.getD g.rows
+
+/-- one step; the second component is what `hash` returned (if the op was `hash`) -/
+def step (g : Geo) : Op → Geo × Option (List (List Rat))
+  | .hash => ({ g with memo := some g.hashVal }, some g.hashVal)
+  | .append o => ({ rows := g.rows ++ o, memo := none }, none)
+  | .slice s => ({ rows := s.apply g.rows, memo := none }, none)
+  | .copy => ({ rows := g.rows, memo := none }, none)
+
+/-- the pre-fix `append`, which kept the memo -/
+def stepOld (g : Geo) : Op → Geo × Option (List (List Rat))
+  | .append o => ({ rows := g.rows ++ o, memo := g.memo }, none)
+  | op => step g op
+
+def run (g : Geo) (ops : List Op) : Geo := ops.foldl (fun s op => (step s op).1) g
+def runOld (g : Geo) (ops : List Op) : Geo := ops.foldl (fun s op => (stepOld s op).1) g
+
+/-! ### driver -/
+open Wire
+
+def num? (s : String) : Option Num :=
+  match s.splitOn ":" with
+  | ["i", v] => (int? v).map Num.int
+  | ["d", v] => (rat? v).map Num.f64
+  | ["s", v] => (rat? v).map Num.f32
+  | _ => none
+
+def showItem : Item → String
+  | .i64 i => s!"i{i}"
+  | .f64 q => "d" ++ showRat q
+  | .f32 q => "s" ++ showRat q
+
 def handle : List String → Option String
+  | "ser" :: h :: w :: rest => do
+    -- ser <h> <w> <n> num…   → the fixed-size suffix that is hashed after the WKT
+    let h ← nat? h; let w ← nat? w
+    let (ext, tl) ← takeList num? rest
+    if tl ≠ [] then none else
+    some (" ".intercalate ((serializeArea ⟨[], h, w, ext⟩).items.map showItem))
+  | "areaeq" :: crs :: rest => do
+    -- areaeq <crsEq> <h1> <w1> <n> num… <h2> <w2> <n> num…
+    let crs ← bool? crs
+    match rest with
+    | h1 :: w1 :: r1 =>
+      let h1 ← nat? h1; let w1 ← nat? w1
+      let (e1, r2) ← takeList num? r1
+      match r2 with
+      | h2 :: w2 :: r3 =>
+        let h2 ← nat? h2; let w2 ← nat? w2
+        let (e2, r4) ← takeList num? r3
+        if r4 ≠ [] then none else
+        some (showBool (areaEq crs ⟨[], h1, w1, e1⟩ ⟨[], h2, w2, e2⟩))
+      | _ => none
+    | _ => none
   | _ => none
 
 end PyresampleModel.C12
